@@ -141,8 +141,17 @@ crypt_scrypt_rn (const char *phrase, size_t phr_size,
                  uint8_t *output, size_t o_size,
                  void *scratch, size_t s_size)
 {
-  if (o_size < set_size + 1 + 43 + 1 ||
-      CRYPT_OUTPUT_SIZE < set_size + 1 + 43 + 1)
+  /* SETTING may be a complete hash.  Only the part in front of the
+     43 characters of hash and the '$' introducing them reappears in
+     the output, so only that part counts here.  */
+  size_t need = set_size;
+  const char *hash = strrchr (setting, '$');
+  if (hash && hash > setting + 2 &&
+      set_size - (size_t) (hash - setting) == 1 + 43)
+    need = (size_t) (hash - setting);
+
+  if (o_size < need + 1 + 43 + 1 ||
+      CRYPT_OUTPUT_SIZE < need + 1 + 43 + 1)
     {
       errno = ERANGE;
       return;
